@@ -14,8 +14,7 @@
    Every operation theorem also states that the model returns [Ok]: no access outside the array, no
    failed assertion, fuel sufficient - for every allocation oracle o. *)
 From Coq Require Import NArith ZArith List Permutation.
-From LCP Require Import Base.CheckedMem DS.AllocOracle DS.PtrHeap DS.TimerQueue DS.PtrHeapInst
-  DS.PtrHeapProofs DS.PtrHeapOps DS.PtrHeapHistory DS.TimerQueueProofs DS.PtrHeapRepo.
+From LCP Require Import Base.CheckedMem DS.AllocOracle DS.PtrHeap DS.TimerQueue DS.PtrHeapInst DS.PtrHeapProofs DS.PtrHeapOps DS.PtrHeapHistory DS.TimerQueueProofs DS.TimerQueueHistory DS.PtrHeapRepo.
 Import ListNotations.
 
 (* ---- M1: getmin is a least element; NULL exactly on the empty heap ---- *)
@@ -258,3 +257,12 @@ Theorem C13_tq_release_order : forall q tv1 o1 p1 q1 o1' ev1 tv2 o2 p2 q2 o2' ev
     tv_le (r_tv r1) (r_tv r2).
 Proof. repo_std. exact (tq_release_order _). Qed.
 Print Assumptions C13_tq_release_order.
+
+(* all timer-queue histories: never a Fault, tq_inv after every prefix (so every outstanding cookie
+   stays valid across every other add / delete / increase / getptr).  [trun] runs the same model
+   functions as tq_add ... (std_tc = repo_tc, std_hc = repo_hc: DS/PtrHeapRepo.v). *)
+Theorem C13_tq_histories : forall ops q o,
+  tq_inv q -> small (length (elems (tq_heap q)) + length ops) ->
+  exists q' o', trun Gen.Repo_heap.timerrec_struct_size q o ops = Ok (q', o') /\ tq_inv q'.
+Proof. exact (trun_inv _). Qed.
+Print Assumptions C13_tq_histories.
